@@ -1,9 +1,11 @@
 """C28 — steps get the binding of their nearest bound ancestor (config/config.py, deployment/utils.py)."""
 from __future__ import annotations
 
+import contextlib
 import copy
 import os
 import random
+import signal
 import tempfile
 from pathlib import PurePosixPath
 
@@ -16,6 +18,24 @@ from sfv.rt.hexs import hx
 
 DRIVER = "Drivers/C28.lean"
 LOCAL_DEFAULT = os.path.join(os.path.realpath(tempfile.gettempdir()), "streamflow")
+
+
+class Hang(Exception):
+    pass
+
+
+@contextlib.contextmanager
+def time_limit(seconds: int):
+    """watchdog for the synchronous real code (a cyclic wraps chain that is not rejected never ends)"""
+    def handler(signum, frame):
+        raise Hang()
+    old = signal.signal(signal.SIGALRM, handler)
+    signal.alarm(seconds)
+    try:
+        yield
+    finally:
+        signal.alarm(0)
+        signal.signal(signal.SIGALRM, old)
 
 
 def o(s):  # Optional[str] -> protocol
@@ -213,8 +233,9 @@ def exc_kind(e: Exception) -> str:
     return "EXC:" + type(e).__name__
 
 
-def norm_wd(w: str) -> str:
-    return "<localtmp>/streamflow" if w == LOCAL_DEFAULT else w
+def norm_wd(t) -> str:
+    """Target.workdir, with the type default of a local deployment made machine independent"""
+    return "<localtmp>/streamflow" if t.workdir == LOCAL_DEFAULT and t.deployment.type == "local" else t.workdir
 
 
 class C28(Property):
@@ -273,8 +294,12 @@ class C28(Property):
               f"{pp(b.get('filters', []))}", "ok", "bind")
         # ---- real constructor ----
         try:
-            wc = WorkflowConfig("wf", config)
+            with time_limit(5):
+                wc = WorkflowConfig("wf", config)
             res = "ok"
+        except Hang:
+            wc, res = None, "HANG"
+            ctx.fail("wraps:check-hangs", f"WorkflowConfig.__init__ did not return within 5 s on deployments {deps}", {"case": case})
         except Exception as e:  # noqa: BLE001
             wc, res = None, exc_kind(e)
         q("init", res, "WorkflowConfig.__init__")
@@ -282,7 +307,7 @@ class C28(Property):
         # oracle: cyclic chains are rejected with a definition error, and only those
         cyc = has_cycle(deps)
         prior_error = res in ("portWithoutWorkdir", "filterUndefined", "notAbsolute")
-        if not prior_error and cyc is not None:
+        if not prior_error and cyc is not None and res != "HANG":
             if cyc and res != "circular":
                 ctx.fail("wraps:cycle-not-rejected", f"deployments {deps} contain a wraps cycle, constructor -> {res}", {"case": case})
             if not cyc and res != "ok":
@@ -292,10 +317,13 @@ class C28(Property):
             for kind, path in case["queries"]:
                 qparts = parts_of(path)
                 try:
-                    bc = get_binding_config(path, kind, wc)
-                    real = ";".join(f"{hx(t.deployment.name)}:{hx(norm_wd(t.workdir))}:{o(t.deployment.workdir)}:{t.locations}"
+                    with time_limit(5):
+                        bc = get_binding_config(path, kind, wc)
+                    real = ";".join(f"{hx(t.deployment.name)}:{hx(norm_wd(t))}:{o(t.deployment.workdir)}:{t.locations}"
                                     for t in bc.targets) + "|" + (",".join(hx(f.name) for f in bc.filters) or "~")
-                    rl = [(t.deployment.name, norm_wd(t.workdir), t.locations) for t in bc.targets]
+                    rl = [(t.deployment.name, norm_wd(t), t.locations) for t in bc.targets]
+                except Hang:
+                    real, rl = "HANG", None
                 except Exception as e:  # noqa: BLE001
                     real, rl = exc_kind(e), None
                 q(f"q {kind[0]} {pp(qparts)}", real, f"get_binding_config({path!r},{kind!r})")
